@@ -22,12 +22,13 @@ def main():
     tasks = []
     for W in widths:
         for i, c in enumerate(cases):
-            if W != 2 and i % 3:
-                continue
+            if W != 2 and (i % 3 or 'write-int' in c.name or 'writeln-int' in c.name):
+                continue        # write(int) of a symbolic value does not bit-blast above 16 bits (C17 treats it with lemmas); it runs at 16 bits here
             tasks.append(case_to_task(c.with_(word=W, stack=200 if 'mergesort' in c.name else 96), mode='diff', max_steps=8000, allow_reject='random' in c.name))
     if quick:
         for i, c in enumerate(cases[::8]):
-            tasks.append(case_to_task(c.with_(word=3 + i % 2, stack=96), mode='diff', max_steps=8000, allow_reject=True))
+            if 'write-int' not in c.name and 'writeln-int' not in c.name:
+                tasks.append(case_to_task(c.with_(word=3 + i % 2, stack=96), mode='diff', max_steps=8000, allow_reject=True))
     # small stacks: a build that leaks array storage (or frames) still agrees at a generous stack; at 20..32 words it does not
     for c in F.alloc_templates() + F.scope_templates()[::3]:
         if any(k in c.name for k in ('repeat-array-calls', 'call-chain', 'rec-arrays', 'lit-elems-callee', 'return-expr', 'mixed-static-dynamic', 'while-vla')):
